@@ -134,6 +134,46 @@ def mk_phi(terms):
     return ("phi", frozenset(s))
 
 
+_ALWAYS_ERR = {}
+
+
+def always_err_fn(prog, path):
+    """a crate-local function every return of which is a literal Err(..) (e.g. util::cbor_type_error)"""
+    key = (id(prog), path)
+    if key in _ALWAYS_ERR:
+        return _ALWAYS_ERR[key]
+    _ALWAYS_ERR[key] = False
+    f = prog.fns.get(path)
+    res = False
+    if f is not None and f.blocks and f.kind in ("Fn", "AssocFn"):
+        rt = Prov(f).return_term()
+        leaves = list(rt[1]) if rt[0] == "phi" else [rt]
+        res = bool(leaves) and all(is_err_term(prog, x) for x in leaves)
+    _ALWAYS_ERR[key] = res
+    return res
+
+
+def is_err_term(prog, x):
+    if x[0] == "aggr" and x[1] == "core::result::Result":
+        return x[2] == "Err"
+    if x[0] == "call":
+        return always_err_fn(prog, x[1])
+    return False
+
+
+def mk_tryok(prog, r):
+    """success value of `r?`: literal Ok(x) gives x; definitions that are always Err cannot continue and are dropped"""
+    if r[0] == "aggr" and r[1] == "core::result::Result" and r[2] == "Ok" and r[3]:
+        return r[3][0][1]
+    if r[0] == "aggr" and r[1] == "core::option::Option" and r[2] == "Some" and r[3]:
+        return r[3][0][1]
+    if r[0] == "phi":
+        live = [x for x in r[1] if not is_err_term(prog, x)]
+        if live:
+            return mk_phi([mk_tryok(prog, x) for x in live])
+    return ("tryok", r)
+
+
 class Prov:
     """Per-function provenance engine."""
 
@@ -287,7 +327,7 @@ class Prov:
                 if inner[0] == "aggr" and inner[2] == base[2]:
                     base = inner
                 elif is_call(inner, TRY_BRANCH) and base[2] == "Continue" and name == "0":
-                    return ("tryok", inner[2][0])
+                    return mk_tryok(self.prog, inner[2][0])
             if base[0] == "aggr":
                 for f, x in base[3]:
                     if f == name:
